@@ -6,7 +6,8 @@ EXTENDS LefLexer, TLC, Json
 CONSTANT MaxLen
 Alphabet == { [c |-> "NL", n |-> 1], [c |-> "WS", n |-> 1], [c |-> "SEMI", n |-> 1], [c |-> "QUOTE", n |-> 1], [c |-> "HASH", n |-> 1],
               [c |-> "DIGIT", n |-> 1], [c |-> "DOT", n |-> 1], [c |-> "MINUS", n |-> 1], [c |-> "ALPHA", n |-> 1],
-              [c |-> "ALPHA", n |-> 2], [c |-> "ALPHA", n |-> 3], [c |-> "OTHER", n |-> 1], [c |-> "OTHER", n |-> 4] }
+              [c |-> "ALPHA", n |-> 2], [c |-> "ALPHA", n |-> 3], [c |-> "OTHER", n |-> 1], [c |-> "OTHER", n |-> 4],
+              [c |-> "UWS", n |-> 2], [c |-> "UWS", n |-> 3] }
 VARIABLE building     \* TRUE while the input is still being extended
 Init == LInit(<<>>) /\ building = TRUE
 Extend == /\ building /\ Len(chars) < MaxLen
